@@ -436,7 +436,7 @@ class Ctx:
             e = {"TRACE_FILE": path}
             if env:
                 e.update(env)
-            r = run_tlc(module, cfg, self.work, workers=1, env=e, timeout=timeout,
+            r = run_tlc(module, cfg, self.work, workers=1, env=e, timeout=timeout, args=("-checkpoint", "0"),
                         props=("-Dtlc2.tool.queue.IStateQueue=StateDeque",))
             if not self.keep:
                 try:
